@@ -75,10 +75,13 @@ CONSTANTS Topics,     \* set of strings
           Pubs,       \* publisher processes of the step model
           MaxPub,     \* bound on the number of Publish calls
           MaxStops,   \* bound on the number of bus Close()/Stop() calls
+          Hows,       \* which of the two spellings {"Close", "Stop"} the per-call model uses (Stop just calls Close)
           Step,       \* FALSE: per-call actions (walk)   TRUE: per-critical-section actions
           Faithful,   \* TRUE: include the deviations of the code as it is
           Revive,     \* TRUE: Subscribe after Close/Stop works (code); FALSE: it yields a dead subscription
-          Metrics,    \* TRUE: the two counters are part of the projection (and of the deviation)
+          Metrics,    \* TRUE: the received counter is part of the projection (and of the deviation)
+          ParkPlain,  \* TRUE: every callback parks until Run (FALSE: only the watcher's does; the harness' own
+                      \*       subscriptions record the message at once - keeps the watcher graphs small)
           Watcher,    \* TRUE: a ConfigWatcher is attached
           CwModes,    \* subset of {"normal", "noint", "opamp"}: initial watcher configurations
           MaxNow      \* horizon in units of the reload interval (<= 4, see above)
@@ -128,9 +131,9 @@ RecvCounts(t) ==
              THEN {[cnt |-> Len(listed[t]), dev |-> "received-counts-closed"]} ELSE {})
 Lab(base, dev) == IF dev = "" THEN base ELSE [dev |-> dev] @@ base
 
-Abs == [ pendingSet |-> pending,
+Abs == [ pendingSet |-> {[m |-> x.m, s |-> x.s, pay |-> msgs[x.m].pay] : x \in pending},
          got        |-> got,
-         mPub       |-> IF Metrics THEN npub ELSE 0,
+         mPub       |-> npub,           \* local_pubsub_published
          mRecv      |-> mRecv,
          blocked    |-> FALSE,          \* no call waits for a slow consumer
          reloads    |-> reloads,
@@ -173,12 +176,15 @@ BusCloseEff ==
   /\ closeCalled' = [s \in Subs |-> closeCalled[s] \/ stopic[s] # "-"]
   /\ closeRet' = [s \in Subs |-> closeRet[s] \/ stopic[s] # "-"]
 
-\* the whole of Publish(t, pay) when nothing can interleave; `base` is the pending set it adds to
-PublishEff(t, pay, cnt, base) ==
+\* the whole of Publish(t, pay) when nothing can interleave; bp/bg are the pending set and the
+\* delivered sequences it adds to
+ParkedSubs == IF ParkPlain THEN Subs ELSE {W}
+PublishEff(t, pay, cnt, bp, bg) ==
   /\ npub < MaxPub
   /\ npub' = npub + 1
   /\ msgs' = Append(msgs, [t |-> t, pay |-> pay])
-  /\ pending' = base \cup {P(npub + 1, s) : s \in Targets(t)}
+  /\ pending' = bp \cup {P(npub + 1, s) : s \in Targets(t) \cap ParkedSubs}
+  /\ got' = [s \in Subs |-> IF s \in Targets(t) \ ParkedSubs THEN Append(bg[s], npub + 1) ELSE bg[s]]
   /\ mRecv' = mRecv + cnt
   /\ elig' = Append(elig, Targets(t))
   /\ must' = Append(must, Targets(t))
@@ -198,17 +204,18 @@ Decide(a, b) ==
   ELSE IF a % 2 = 1 THEN {"pub"} ELSE {"pub", "skip"}
 
 \* Config.Reload() called at stamp a, with b the stamp cw.msgTime holds at that moment
-\* and `base` the pending set: counts the reload; a pending file change is noticed and
-\* announced through ReloadCallback unless suppressed.
-ReloadEff(a, b, base) ==
+\* and bp/bg the pending set and delivered sequences: counts the reload; a pending file change
+\* is noticed and announced through ReloadCallback unless suppressed.
+ReloadEff(a, b, bp, bg) ==
+  /\ fileChanged => npub < MaxPub      \* (bound) never cut off only one of the outcomes of a reload
   /\ reloads' = reloads + 1
   /\ fileChanged' = FALSE
   /\ IF fileChanged
        THEN \E d \in Decide(a, b) :
               IF d = "pub"
-                THEN \E c \in RecvCounts(CfgTopic) : PublishEff(CfgTopic, a, c.cnt, base)
-                ELSE NoPublish /\ pending' = base
-       ELSE NoPublish /\ pending' = base
+                THEN \E c \in RecvCounts(CfgTopic) : PublishEff(CfgTopic, a, c.cnt, bp, bg)
+                ELSE NoPublish /\ pending' = bp /\ got' = bg
+       ELSE NoPublish /\ pending' = bp /\ got' = bg
 
 (***************************************************************************)
 (* Per-call actions (Step = FALSE)                                         *)
@@ -221,8 +228,8 @@ Subscribe(s, t) ==
 
 Publish(t, pay) ==
   \E c \in RecvCounts(t) :
-    /\ PublishEff(t, pay, c.cnt, pending)
-    /\ UNCHANGED <<listed, cb, stopic, nstops, got, stepvars, closeCalled, closeRet, cwvars>>
+    /\ PublishEff(t, pay, c.cnt, pending, got)
+    /\ UNCHANGED <<listed, cb, stopic, nstops, stepvars, closeCalled, closeRet, cwvars>>
     /\ act' = Lab([name |-> "Publish", t |-> t, pay |-> pay], c.dev)
 
 \* Subscription.Close (idempotent; after the bus was closed it finds nothing to do)
@@ -254,13 +261,13 @@ RunPlain(m, s) ==
 \* ConfigWatcher.SubscriptionListener runs for message m
 RunWatcher(m) ==
   /\ Watcher /\ P(m, W) \in pending
-  /\ got' = [got EXCEPT ![W] = Append(@, m)]
   /\ IF msgs[m].pay < 0                              \* not a time stamp: ignored, no reload
        THEN /\ pending' = pending \ {P(m, W)}
+            /\ got' = [got EXCEPT ![W] = Append(@, m)]
             /\ NoPublish
             /\ UNCHANGED <<cwMsg, fileChanged, reloads>>
        ELSE /\ cwMsg' = msgs[m].pay
-            /\ ReloadEff(2 * now + 1, msgs[m].pay, pending \ {P(m, W)})
+            /\ ReloadEff(2 * now + 1, msgs[m].pay, pending \ {P(m, W)}, [got EXCEPT ![W] = Append(@, m)])
   /\ UNCHANGED <<listed, cb, stopic, nstops, stepvars, closeCalled, closeRet, cwMode, cwRun, monitor, now>>
   /\ act' = [name |-> "Run", m |-> m, s |-> W]
 
@@ -314,20 +321,21 @@ CwStartStop ==
 \* the virtual clock advances by one reload interval; a live monitor ticks once on the way
 Advance ==
   /\ Watcher /\ cwRun # "new" /\ now < MaxNow
+  /\ (fileChanged /\ monitor = "maybe") => npub < MaxPub      \* (bound) as in ReloadEff
   /\ now' = now + 1
   /\ \/ /\ monitor \in {"run", "leaked"}
-        /\ ReloadEff(2 * (now + 1), cwMsg, pending)
+        /\ ReloadEff(2 * (now + 1), cwMsg, pending, got)
         /\ UNCHANGED <<monitor>>
         /\ act' = [name |-> "Advance"]
      \/ /\ monitor \in {"none", "exit", "maybe"}
         /\ monitor' = IF monitor = "maybe" THEN "exit" ELSE monitor
-        /\ NoPublish /\ UNCHANGED <<pending, fileChanged, reloads>>
+        /\ NoPublish /\ UNCHANGED <<pending, got, fileChanged, reloads>>
         /\ act' = [name |-> "Advance"]
      \/ /\ monitor = "maybe"                      \* Stop found cw.done == nil: the monitor was never told
         /\ monitor' = "leaked"
-        /\ ReloadEff(2 * (now + 1), cwMsg, pending)
+        /\ ReloadEff(2 * (now + 1), cwMsg, pending, got)
         /\ act' = [name |-> "Advance", dev |-> "monitor-leak"]
-  /\ UNCHANGED <<listed, cb, stopic, nstops, got, stepvars, closeCalled, closeRet, cwMode, cwRun, cwMsg>>
+  /\ UNCHANGED <<listed, cb, stopic, nstops, stepvars, closeCalled, closeRet, cwMode, cwRun, cwMsg>>
 
 Pays(t) == IF Watcher /\ t = CfgTopic THEN {2 * now + 1, -2} ELSE {0}
 
@@ -335,7 +343,7 @@ NextCall ==
   \/ \E s \in Subs, t \in Topics : Subscribe(s, t)
   \/ \E t \in Topics : \E pay \in Pays(t) : Publish(t, pay)
   \/ \E s \in Subs : CloseSub(s)
-  \/ \E how \in {"Close", "Stop"} : BusClose(how)
+  \/ \E how \in Hows : BusClose(how)
   \/ \E m \in Ids, s \in Subs : RunPlain(m, s)
   \/ \E m \in Ids : RunWatcher(m)
   \/ FileChange \/ CwStart \/ CwStop \/ CwStartStop \/ Advance
@@ -492,8 +500,17 @@ Quiesces == <>[](pending = {} /\ \A p \in Pubs : ppc[p] = "idle")
 (***************************************************************************)
 (* plumbing                                                                *)
 (***************************************************************************)
-Hid == [listed |-> listed, cb |-> cb, stopic |-> stopic, nstops |-> nstops, msgs |-> msgs,
+\* what of the message history still matters: the payloads of deliveries in flight
+PendPay == {<<x.m, x.s, msgs[x.m].pay>> : x \in pending}
+Hid == [listed |-> listed, cb |-> cb, stopic |-> stopic, nstops |-> nstops,
         cwMode |-> cwMode, cwRun |-> cwRun, monitor |-> monitor, cwMsg |-> cwMsg, fileChanged |-> fileChanged]
+\* constants the harness needs (arrive in Reset as init["params"])
+ASSUME PrintT(ToJson([params |-> [metrics |-> Metrics, parkPlain |-> ParkPlain, watcher |-> Watcher]]))
 Dump == PrintT(ToJson([fabs |-> Abs, fhid |-> Hid, fa |-> act.name, act |-> act', tabs |-> Abs', thid |-> Hid']))
+\* model checking: every variable but the label
 View == <<busvars, stepvars, ghostvars, cwvars>>
+\* edge dump for the walker: the real state only (ghosts and the delivered part of the message history do
+\* not influence any later step of the per-call model); the properties are checked under View by the
+\* MC_PubSub_*_mc cfgs, which do not dump
+ViewReal == <<listed, cb, stopic, nstops, npub, PendPay, got, mRecv, cwvars>>
 =============================================================================
